@@ -443,8 +443,72 @@ def replay_codes():
     return native.record("C09", "wire_codes", {"native": got, "expected": want}, got != want)
 
 
+def batch_value_count(ctx, mf, reg, tier):
+    """the per-statement [short] value count is range-checked, never truncated: a value list that writes n cells (n an arbitrary usize, chosen by the
+    environment: the list's serialize_next is abstract here) is refused when n > 65535 and otherwise announced as exactly n"""
+    ro = reg.get("RequestOpcode")
+    n = z3.BitVec("cells_written_by_the_list", 64)
+    pre = []
+    def build(it):
+        return batch_value(it, reg, 200, [("p", 2)], [[]], False, False, pre)
+    def abstract_next(it, p, callee, args):
+        rw = sm.deref(args[1])
+        rw.f[1] = Int(n, 64, False)
+        return sm.some(it, Enum(it.const_int(0, "isize"), {0: Tup([Unit()])}, sm.RESULT, "Result"))
+    tracing = z3.Bool("tracing_bvc")
+    itp, make, comp = make_frame(mf, reg, r"batch\.rs[^>]*>::serialize\(_1: &frame::request::batch::Batch<", "Batch", None, tracing, pre, False, "_bvc")
+    # the first list's serialize_next is the abstract one; skip_next / count keep the real impl
+    real = itp.models[r"^<<Values as RawBatchValues>::RawBatchValuesIter<'_> as RawBatchValuesIterator<'_>>::serialize_next$"]
+    state = {"first": True}
+    def serialize_next(it, p, callee, args):
+        return abstract_next(it, p, callee, args)
+    itp.models = {**{r"^<<Values as RawBatchValues>::RawBatchValuesIter<'_> as RawBatchValuesIterator<'_>>::serialize_next$": None}, **itp.models}
+    itp.models[r"^<<Values as RawBatchValues>::RawBatchValuesIter<'_> as RawBatchValuesIterator<'_>>::serialize_next$"] = serialize_next
+    req, body, inputs = build(itp)
+    # the abstract list consumes no entry of the Vec: hand the batch an empty Vec so that nothing is left over afterwards
+    req.f[5] = Seq([])
+    paths = itp.run(make, [Ref(Cell(req)), comp, Bool(tracing)], pre)
+    goals, cover = [], []
+    for p in paths:
+        pc = z3.And(p.pc[len(pre):]) if len(p.pc) > len(pre) else z3.BoolVal(True)
+        if p.outcome[0] != "return":
+            goals.append(z3.Not(pc)); continue
+        cover.append(pc)
+        r = p.outcome[1]
+        fits = z3.ULE(n, 65535)
+        conj = [(r.discr.t == 0) == fits]
+        if 0 in r.payloads:
+            data = r.payloads[0].f[0].f[0].items
+            # header(9) type(1) n_statements(2) kind(1) idlen(2) id(2) -> count at offset 17
+            if len(data) >= 19:
+                conj.append(z3.Implies(fits, z3.Concat(data[17].t, data[18].t) == z3.Extract(15, 0, n)))
+            else:
+                conj.append(z3.Not(fits))
+        goals.append(z3.Implies(pc, z3.And(conj)))
+    goals.append(z3.Or(cover) if cover else z3.BoolVal(False))
+    ctx.prove("c09_batch_value_count_is_range_checked_not_truncated", pre, z3.And(goals), inputs=[n],
+              functions="Batch::do_serialize (count patch-back) [scylla-cql/src/frame/request/batch.rs], RowWriter::value_count",
+              bounds="a one-statement batch whose value list reports ANY number of written cells (all 2^64 values, the list itself abstract): refused iff the number exceeds 65535, otherwise the "
+                     "[short] count in the frame is exactly that number",
+              backend="BV", assumes=LIB + "; the value list's serialize_next is abstract (sets the writer's cell count to an arbitrary number, writes no bytes)", witness=False,
+              replay=lambda m: replay_value_count(m))
+
+
+def replay_value_count(m):
+    from . import native
+    nat = native.Native("core")
+    n = (m.get("cells_written_by_the_list") or 0) & ((1 << 64) - 1)
+    bad = []
+    for k in sorted({min(n, 70000), 65535, 65536}):
+        got = nat.ask(f"req batchcount 0 {k}")
+        want = "ERR" if k > 65535 else f"count={k}"
+        if got != want: bad.append({"cells": k, "native": got, "expected": want})
+    nat.close()
+    return native.record("C09", "batch_value_count", {"mismatches": bad, "model_cells": n}, bool(bad))
+
+
 def run(ctx, mf, reg, tier):
-    for name, f in (("wire_codes", wire_codes), ("simple_requests", simple_requests), ("execute_frames", execute_frames), ("batch_frames", batch_frames)):
+    for name, f in (("wire_codes", wire_codes), ("simple_requests", simple_requests), ("execute_frames", execute_frames), ("batch_frames", batch_frames), ("batch_value_count", batch_value_count)):
         try:
             f(ctx, mf, reg, tier)
         except mir.Unsupported as e:
